@@ -350,6 +350,13 @@ func (v *SequenceDiagramVisitor) visitEndpointCollection(e *EndpointCollectionEl
 }
 
 func (v *SequenceDiagramVisitor) visitEndpoint(e *EndpointElement) error {
+	// a call may name an application or endpoint the model does not define
+	// (the compiler only warns): report it instead of panicking in the lookups
+	if target, ok := v.m.Apps[e.appName]; !ok {
+		return fmt.Errorf(`no app named "%s"`, e.appName)
+	} else if _, ok := target.Endpoints[e.endpointName]; !ok {
+		return fmt.Errorf(`no endpoint named "%s <- %s"`, e.appName, e.endpointName)
+	}
 	sender := e.sender(v)
 	agent := e.agent(v)
 	app := e.application(v.m)
